@@ -51,6 +51,8 @@ PARENTS = [
     "%s into f",
     "%s.k",
     "%s[0]",
+    "xs[%s]",
+    "xs[%s[0]]",
     "!%s",
     "-%s",
     "%s ?? 0",
@@ -101,7 +103,9 @@ def programs(rng, pairs):
     if pairs >= total:
         picks = [(a, b, ci) for a in range(len(PARENTS)) for b in range(len(PARENTS)) for ci in range(len(CONTAINERS))]
     else:
-        picks = [(rng.below(len(PARENTS)), rng.below(len(PARENTS)), rng.below(len(CONTAINERS))) for _ in range(pairs)]
+        # every pair of parents with one list and one record container, plus random triples
+        picks = [(a, b, ci) for a in range(len(PARENTS)) for b in range(len(PARENTS)) for ci in (0, 5)]
+        picks += [(rng.below(len(PARENTS)), rng.below(len(PARENTS)), rng.below(len(CONTAINERS))) for _ in range(pairs)]
     for a, b, ci in picks:
         child, comments, n = _instantiate(n, CONTAINERS[ci])
         src = "x = " + (PARENTS[a] % (PARENTS[b] % child))
